@@ -398,6 +398,16 @@ def logical_size(model_line):
     return tot
 
 
+MAX_SPARSE_TOOL = 4096    # sparse map entries above which an archive is not given to the tools (see assumptions)
+
+
+def tool_eligible(model_line):
+    """tar2sqfs needs time proportional to logical size x sparse map length (is_sparse_region walks the list on
+    every read): both are bounded for the tool runs so that a time-out means a hang, not a slow input"""
+    m = model_line or ""
+    return logical_size(m) <= MAX_LOGICAL and m.count(";") <= 2 * MAX_SPARSE_TOOL
+
+
 def part_tar(ctx, info, drv, tools, stats):
     h = B.compile_harness(info, [os.path.join(HERE, "h_tar.c")], "c07_h_tar")
     rnd = random.Random(ctx.seed * 7919 + 2)
@@ -419,7 +429,7 @@ def part_tar(ctx, info, drv, tools, stats):
         return dict(part="tar", tag=cases[i][0], tar_b64=base64.b64encode(cases[i][1]).decode())
 
     def search(i):
-        if logical_size(outs_m[i]) > MAX_LOGICAL:
+        if not tool_eligible(outs_m[i]) or not tool_eligible(outs_c[i]):
             return None
         return tools.tar2sqfs(cases[i][1])
 
@@ -427,7 +437,7 @@ def part_tar(ctx, info, drv, tools, stats):
     # tool level: a sample per generator class, bounded logical size
     by_tag = {}
     for i, (t, d) in enumerate(cases):
-        if logical_size(outs_m[i]) <= MAX_LOGICAL:
+        if tool_eligible(outs_m[i]):
             by_tag.setdefault(t.split(":")[0], []).append(i)
     per = 45 if ctx.tier == "quick" else 1500
     sample = []
@@ -723,7 +733,7 @@ def run(ctx):
                     "props/C07/gen.py (own tar encoder, mutators), vlib/sqfsimg.py validator for produced images",
                     "props/C07/gen_c07.c: translator /repo headers + <errno.h> -> coq/C07/GenC07.v (regenerated on every run)",
                     "<ctype.h> in the C locale, strtol(3), strnlen/strndup/strcmp/strchr as specified by ISO C (modelled, not verified)"]
-    ctx.assumptions += ["bounded time is relative to input length plus announced logical sizes: archives announcing more than %d bytes of file data are parsed by the harness but not handed to tar2sqfs" % MAX_LOGICAL,
+    ctx.assumptions += ["bounded time is relative to input length plus announced logical sizes: archives announcing more than %d bytes of file data or carrying a sparse map of more than %d entries are parsed by the harness but not handed to tar2sqfs (tar2sqfs walks the whole sparse map on every read: a 600 kB archive with the maximum of 65536 entries takes about 30 s)" % (MAX_LOGICAL, MAX_SPARSE_TOOL),
                         "decompressor libraries and the xfrm stream layer are outside this model (C15); inputs are uncompressed tar streams",
                         "malloc failure paths are not explored (C13)"]
     if ctx.replay:
